@@ -684,6 +684,70 @@ func c06EarlyFail(r *vx.Rand) {
 	w.Quiesce(scenarioTimeout)
 }
 
+// c06CommitSplit: a transaction over three to five keys in one or two regions (every commit mode, optimistic or pessimistic)
+// whose region is SPLIT between two of its keys just before its n-th prewrite or its n-th commit request — the primary's, or
+// the secondaries' request that runs in the background after Commit returned: the request is refused with EpochNotMatch and the
+// batch is re-grouped into several batches.  No request is lost; after the background work has drained no lock of the
+// transaction may be left and its records are all-or-nothing.
+func c06CommitSplit(r *vx.Rand) {
+	s := genShape(r)
+	for len(s.keys) < 3 {
+		s = genShape(r)
+	}
+	s.ageMs, s.wideWindow = 0, false
+	if r.Chance(60) {
+		s.mode = "2pc"
+	}
+	// few regions: several keys share one
+	s.layout = nil
+	if r.Chance(40) {
+		s.layout = [][]byte{pick(r, s.keys[1:])}
+	}
+	sr := startShape(s, r)
+	w := sr.w
+	defer w.Close()
+	if !sr.ok {
+		return
+	}
+	a := sr.a
+	g := w.Gate()
+	what := pick(r, []string{"commit", "commit", "commit", "prewrite"})
+	nth := r.Intn(3)
+	for i := 1 + r.Intn(2); i > 0; i-- {
+		// a boundary between two keys of the transaction (not an existing one)
+		var cands [][]byte
+		for _, k := range s.keys[1:] {
+			in := false
+			for _, l := range s.layout {
+				in = in || string(l) == string(k)
+			}
+			if !in {
+				cands = append(cands, k)
+			}
+		}
+		if len(cands) == 0 {
+			break
+		}
+		seen := 0
+		n := nth + i - 1
+		f := hub.SplitFault(pick(r, cands))
+		f.Client = a
+		f.Match = func(kind, cmd string) bool {
+			if kind != what {
+				return false
+			}
+			seen++
+			return seen > n
+		}
+		g.AddFault(f)
+	}
+	rec.Count("c06:commit-split:" + what)
+	if _, ret := sr.final(); !ret {
+		return
+	}
+	w.Quiesce(scenarioTimeout)
+}
+
 // bigKey makes the i-th key of a family of long keys sharing a one-byte prefix (they sort by i).
 func bigKey(prefix byte, i, size int) []byte {
 	k := make([]byte, size)
@@ -850,6 +914,10 @@ func runC06() {
 			fam = "agg-expire"
 			aggExpireScenario(rnd.Fork())
 			rec.Count("c06:family:agg-expire")
+		case i%12 == 7:
+			fam = "commit-split"
+			c06CommitSplit(rnd.Fork())
+			rec.Count("c06:family:commit-split")
 		case i%12 == 9:
 			fam = "early-fail"
 			c06EarlyFail(rnd.Fork())
